@@ -742,8 +742,9 @@ def run_property(prop, tier='quick', only=None, verbose=False):
     replay = ''
     if new_findings:
         exit_code = 1
-        os.makedirs(os.path.join(VERIF_DIR, 'out'), exist_ok=True)
-        replay = os.path.join(VERIF_DIR, 'out', '%s.violation.json' % pid)
+        outdir = os.environ.get('VERIF_OUT', os.path.join(VERIF_DIR, 'out'))
+        os.makedirs(outdir, exist_ok=True)
+        replay = os.path.join(outdir, '%s.violation.json' % pid)
         with open(replay, 'w') as f:
             json.dump({'property': pid, 'findings': [x.as_dict() for x in new_findings]}, f, indent=1)
         for x in new_findings:
@@ -788,7 +789,7 @@ def run_property(prop, tier='quick', only=None, verbose=False):
         'assumptions': prop.assumptions, 'wall_s': round(time.time() - t0, 3),
         'violations': len(new_findings),
     }
-    if not only:
+    if not only and not os.environ.get('VERIF_NO_EVIDENCE'):
         os.makedirs(os.path.join(VERIF_DIR, 'evidence'), exist_ok=True)
         with open(os.path.join(VERIF_DIR, 'evidence', '%s.json' % pid), 'w') as f:
             json.dump(ev, f, indent=1, default=str)
